@@ -1,15 +1,26 @@
 import Bmc.Proofs.C02
 import Bmc.Proofs.C12
 import Bmc.Proofs.C03
+import Bmc.Lemmas.HandshakeLive
+import Bmc.Crypto.Toy
 /-! # C01 — session establishment agrees on keys with every conforming BMC (property theorems only)
 
-Proved here: whenever a session is returned — for EVERY credential, suite, random, GUID, session ID and reply script —
-its SIK, K1, K2 are the specification's functions of the exchanged values (so any BMC computing the specification's
-formulas on the same exchange holds the same keys), its IDs are those of the Open Session Response, and every
-command then sent is sealed under exactly those keys (C03). Suites without integrity or confidentiality are refused.
-PARTIAL: that the handshake against a conforming BMC SUCCEEDS (liveness) is established by the correspondence run
-against the independent reference BMC (all 9 suites x KG x lookup x privilege x credential lengths), not by a Lean
-theorem yet. -/
+Proved here:
+* LIVENESS (`handshake_succeeds`, `transmits_spec_datagrams`, `keys_agree`): against the specification's BMC
+  (`Spec/Bmc.lean`: the three replies of §13.18/13.21/13.23 as datagrams, written from Appendix H, and the BMC's own
+  key derivation from the fields it RECEIVED) holding the same password and K_G, for EVERY supported suite, user name
+  of at most 16 bytes, privilege nibble, lookup mode, password, K_G, console random, BMC session ID / random / GUID /
+  reported privilege and EVERY hash function (no crypto law is used: both sides apply the same function; its outputs
+  merely have to fit a datagram), `newSession` transmits exactly three datagrams — the Open Session Request, RAKP 1
+  and RAKP 3 (with the specification's RAKP 3 code, the one the BMC expects) — and returns a session with console ID
+  1, the BMC's ID, the proposed suite, and SIK / K1 / K2 EQUAL to the BMC's.
+* SOUNDNESS (`keys_are_spec`, `session_ids`, `unsupported_refused`): whenever a session is returned — for EVERY
+  credential, suite, random, GUID, session ID and reply script (lost, garbled, forged replies included) — its SIK, K1,
+  K2 are the specification's functions of the exchanged values, its IDs are those of the Open Session Response, and
+  every command then sent is sealed under exactly those keys (C03). Suites without integrity or confidentiality are
+  refused.
+Liveness is for the loss-free script (one conforming reply per exchange); retransmission after lost or undecodable
+replies is C10's subject. -/
 namespace Bmc.Proofs.C01
 open Bmc Bmc.Wire Bmc.Crypto Bmc.Proto
 
@@ -50,5 +61,106 @@ theorem unsupported_refused (C : Ops) (o : Opts) (rm : Bytes) (script : List Out
 theorem commands_sealed_with_session_keys (C : Ops) (k : Keys) (c : Cmd) (inb : Nat) (iv : Bytes) :
     ∃ signed, datagramOf C k c inb iv = [6, 0, 0xFF, 7] ++ signed ++ integMac C k.integ k.k1 signed :=
   ⟨_, C03.datagram_shape C k c inb iv⟩
+
+-- liveness against the specification's BMC -----------------------------------------------------------------------
+
+/-- the values exchanged between a console with options `o` / random `rm` and the BMC `b`: console session ID 1 (the
+    library always requests 1), the BMC's ID, both randoms, the GUID, the role byte and user name of RAKP 1 -/
+def exchangeWith (o : Opts) (rm : Bytes) (b : Spec.BmcSide) : Spec.Exchange :=
+  { sidm := Spec.le32 1, sidc := Spec.le32 b.sidc, rm := rm, rc := b.rc, guid := b.guid, role := roleByte o, uname := o.user }
+
+/-- the BMC's three replies, each computed (Spec/Bmc.lean) from its own values and the fields it received
+    (`received o rm` = tag 0, console session ID 1, the proposed suite, `rm`, the role byte, the user name — exactly
+    the fields of the datagrams `transmits_spec_datagrams` shows are sent) -/
+def honestScript (C : Ops) (h : HashAlg) (o : Opts) (rm : Bytes) (b : Spec.BmcSide) : List Outcome :=
+  [.reply (b.openSessionReply (received o rm)), .reply (b.rakp2Reply C h (received o rm)), .reply (b.rakp4Reply C h (received o rm))]
+
+/-- LIVENESS: the handshake with a conforming BMC that holds the same password and K_G succeeds, and the session
+    carries console ID 1, the BMC's session ID, the proposed suite and the specification's SIK, K1, K2 for the values
+    exchanged. `C` is ANY hash/cipher (lawful or not); `hfit` only says its outputs fit a datagram's 16-bit length
+    (any real hash: `hfit_of_lawful`). `rm` is the 16-byte draw in the library; its length is not needed. -/
+theorem handshake_succeeds (C : Ops) (o : Opts) (rm : Bytes) (b : Spec.BmcSide) (h : HashAlg)
+    (hauth : authHash o.auth = some h) (hinteg : o.integ = 1 ∨ o.integ = 2 ∨ o.integ = 4) (hconf : o.conf = 1)
+    (huser : o.user.length ≤ 16) (hpriv : o.priv.toNat < 16)
+    (hb : b.wf) (hpass : b.kuid = o.pass) (hkg : b.kg = o.kg)
+    (hfit : ∀ k m, (C.hmac h k m).length + 40 < 65536) :
+    (newSession C o rm (honestScript C h o rm b)).2 =
+      .ok 1 b.sidc o.auth o.integ o.conf
+        (Spec.sik C h o.pass o.kg (exchangeWith o rm b))
+        (Spec.k C h (Spec.sik C h o.pass o.kg (exchangeWith o rm b)) 1)
+        (Spec.k C h (Spec.sik C h o.pass o.kg (exchangeWith o rm b)) 2) := by
+  obtain ⟨f2, f4⟩ := fits_of_bound C h hfit b.kuid (b.sik C h (received o rm)) (b.exchange (received o rm))
+  have := newSession_live C o rm b hb h hauth hinteg hconf huser hpriv hpass hkg f2 f4
+  unfold honestScript
+  rw [this]
+  simp only [Spec.BmcSide.sik, Spec.BmcSide.k1, Spec.BmcSide.k2, hpass, hkg]
+  rfl
+
+/-- KEY AGREEMENT: the keys of the returned session are the keys the BMC derives, independently, from the fields it
+    received and its own values (`Spec.BmcSide.sik/k1/k2`) -/
+theorem keys_agree (C : Ops) (o : Opts) (rm : Bytes) (b : Spec.BmcSide) (h : HashAlg)
+    (hauth : authHash o.auth = some h) (hinteg : o.integ = 1 ∨ o.integ = 2 ∨ o.integ = 4) (hconf : o.conf = 1)
+    (huser : o.user.length ≤ 16) (hpriv : o.priv.toNat < 16)
+    (hb : b.wf) (hpass : b.kuid = o.pass) (hkg : b.kg = o.kg)
+    (hfit : ∀ k m, (C.hmac h k m).length + 40 < 65536) :
+    (newSession C o rm (honestScript C h o rm b)).2 =
+      .ok 1 b.sidc o.auth o.integ o.conf (b.sik C h (received o rm)) (b.k1 C h (received o rm)) (b.k2 C h (received o rm)) := by
+  obtain ⟨f2, f4⟩ := fits_of_bound C h hfit b.kuid (b.sik C h (received o rm)) (b.exchange (received o rm))
+  have := newSession_live C o rm b hb h hauth hinteg hconf huser hpriv hpass hkg f2 f4
+  unfold honestScript
+  rw [this]
+
+/-- exactly three datagrams are transmitted, and they are the specification's: Open Session Request (tag 0, the
+    requested privilege, console session ID 1, the suite), RAKP 1 (the BMC's session ID, `rm`, role byte, user name)
+    and RAKP 3 (status 00, the BMC's session ID, the specification's RAKP 3 code — the one the BMC expects), each in
+    the null-session RMCP+ wrapper with payload types 10h, 12h, 14h -/
+theorem transmits_spec_datagrams (C : Ops) (o : Opts) (rm : Bytes) (b : Spec.BmcSide) (h : HashAlg)
+    (hauth : authHash o.auth = some h) (hinteg : o.integ = 1 ∨ o.integ = 2 ∨ o.integ = 4) (hconf : o.conf = 1)
+    (huser : o.user.length ≤ 16) (hpriv : o.priv.toNat < 16)
+    (hb : b.wf) (hpass : b.kuid = o.pass) (hkg : b.kg = o.kg)
+    (hfit : ∀ k m, (C.hmac h k m).length + 40 < 65536) :
+    (newSession C o rm (honestScript C h o rm b)).1 =
+      [Spec.sessionless 0x10 (Spec.openSessionRequest 0 o.priv 1 o.auth o.integ o.conf),
+       Spec.sessionless 0x12 (Spec.rakp1 0 b.sidc rm (roleByte o) o.user),
+       Spec.sessionless 0x14 (Spec.rakp3 0 0 b.sidc (Spec.rakp3Code C h o.pass (exchangeWith o rm b)))] ∧
+    Spec.rakp3Code C h o.pass (exchangeWith o rm b) = b.expectedRakp3 C h (received o rm) := by
+  obtain ⟨f2, f4⟩ := fits_of_bound C h hfit b.kuid (b.sik C h (received o rm)) (b.exchange (received o rm))
+  have := newSession_live C o rm b hb h hauth hinteg hconf huser hpriv hpass hkg f2 f4
+  have e : Spec.rakp3Code C h o.pass (exchangeWith o rm b) = b.expectedRakp3 C h (received o rm) := by
+    simp only [Spec.BmcSide.expectedRakp3, hpass]; rfl
+  refine ⟨?_, e⟩
+  unfold honestScript
+  rw [this, e]
+
+/-- every lawful hash (HMAC output = the algorithm's digest size) satisfies `hfit` -/
+theorem hfit_of_lawful (C : Ops) (hC : C.Lawful) (h : HashAlg) : ∀ k m, (C.hmac h k m).length + 40 < 65536 := by
+  intro k m; rw [hC.hmac_len]; cases h <;> decide
+
+/-- the hypotheses are satisfiable (suite 17: SHA256 / SHA256-128 / AES; K_G set; name-only lookup; a 5-byte user) … -/
+example :
+    let o : Opts := { user := [0x61, 0x64, 0x6d, 0x69, 0x6e], pass := [0x70, 0x77], kg := [9, 9, 9], priv := 4, auth := 3, integ := 4, conf := 1 }
+    let b : Spec.BmcSide := { kuid := [0x70, 0x77], kg := [9, 9, 9], sidc := 0xa0a2a3a4, rc := List.replicate 16 0xAB, guid := List.replicate 16 0x44 }
+    authHash o.auth = some .sha256 ∧ (o.integ = 1 ∨ o.integ = 2 ∨ o.integ = 4) ∧ o.conf = 1 ∧ o.user.length ≤ 16 ∧
+      o.priv.toNat < 16 ∧ b.wf ∧ b.kuid = o.pass ∧ b.kg = o.kg := by decide
+
+/-- … by a lawful hash as well … -/
+example : ∀ k m, (Crypto.toy.hmac .sha256 k m).length + 40 < 65536 := hfit_of_lawful _ Crypto.toy_lawful _
+
+/-- … and the model, evaluated by the kernel on that instance (independently of the theorems above), does return the
+    session after three transmissions -/
+example :
+    let o : Opts := { user := [0x61, 0x64, 0x6d, 0x69, 0x6e], pass := [0x70, 0x77], kg := [9, 9, 9], priv := 4, auth := 3, integ := 4, conf := 1 }
+    let b : Spec.BmcSide := { kuid := [0x70, 0x77], kg := [9, 9, 9], sidc := 0xa0a2a3a4, rc := List.replicate 16 0xAB, guid := List.replicate 16 0x44 }
+    let r := newSession Crypto.toy o (List.replicate 16 7) (honestScript Crypto.toy .sha256 o (List.replicate 16 7) b)
+    r.1.length = 3 ∧ r.2 = .ok 1 0xa0a2a3a4 3 4 1 (List.replicate 32 0) (List.replicate 32 0) (List.replicate 32 0) := by
+  decide +kernel
+
+/-- a BMC holding ANOTHER password does not get a session (non-vacuity of `hpass`; toy hash keyed visibly) -/
+example :
+    let C : Ops := { Crypto.toy with hmac := fun _ k _ => k }
+    let o : Opts := { user := [0x61], pass := [0x70, 0x77], priv := 4, auth := 1, integ := 1, conf := 1 }
+    let b : Spec.BmcSide := { kuid := [0x70, 0x78], sidc := 5, rc := List.replicate 16 0xAB, guid := List.replicate 16 0x44 }
+    (newSession C o (List.replicate 16 7) (honestScript C .sha1 o (List.replicate 16 7) b)).2 = .incorrectPassword := by
+  decide +kernel
 
 end Bmc.Proofs.C01
